@@ -32,7 +32,13 @@ let () =
             step Shutdown.Accept "accept";
             (* the flag is loaded right after this event is logged; if the connection is later dispatched the load saw
                `false`, i.e. it happened before the store (which is logged after it happens) *)
-            if next_accept_thread_event i = "dispatch" then step Shutdown.CheckGo "go"
+            (match next_accept_thread_event i with
+             | "dispatch" -> step Shutdown.CheckGo "go"
+             | "break" -> ()
+             | _ ->
+               (* no dispatch and no break before the next accept: accept() failed or the client was refused. This is only
+                  legitimate when the flag had not been stored yet: an accept logged after the store must break *)
+               step Shutdown.Skip "skip-after-flag-set")
           | "break" ->
             (* the flag may be observed before the storing thread has logged its store *)
             if (not !st.Shutdown.flag) && !st.Shutdown.s = Shutdown.SStore then (step Shutdown.Store "store"; early_store := true);
